@@ -209,6 +209,9 @@ def case_graph(mon: Monitor, rng: random.Random) -> None:
         return mon.fail("GeoboxTiles.grid_intersect", {**desc, "exc": e}, key="grid-intersect-raises", cls=kind)
     sp = {(r, c): footprint(src, sox[c], soy[r], sox[c + 1], soy[r + 1], to_crs=dst.crs) for r, c in itertools.product(range(len(soy) - 1), range(len(sox) - 1))}
     pxarea = abs(np.linalg.det(pairs.M3(dst.affine)[:2, :2]))
+    Pl = np.linalg.inv(pairs.M3(src.affine)) @ pairs.M3(dst.affine)
+    st_linear = (not cross) and abs(Pl[0, 1]) < 1e-8 and abs(Pl[1, 0]) < 1e-8 and abs(src.affine.b) < 1e-12 * abs(src.affine.a) and abs(src.affine.d) < 1e-12 * abs(src.affine.e)
+    src_px_len = min(abs(src.affine.a), abs(src.affine.e)) if st_linear else 1.0
     missing, nedge = [], 0
     bad_index = [k for k in deps if not (0 <= k[0] < len(doy) - 1 and 0 <= k[1] < len(dox) - 1)] + \
                 [s for v in deps.values() for s in v if not (0 <= s[0] < len(soy) - 1 and 0 <= s[1] < len(sox) - 1)]
@@ -217,8 +220,16 @@ def case_graph(mon: Monitor, rng: random.Random) -> None:
         for sidx, spoly in sp.items():
             if not spoly.is_valid or not dp.is_valid:
                 continue
-            a = dp.intersection(spoly).area
+            inter = dp.intersection(spoly)
+            a = inter.area
             thr = max(0.02 * min(dp.area, spoly.area), 4 * pxarea) if cross else 1e-6 * min(dp.area, spoly.area)
+            if a > thr and st_linear:
+                # scale + translation only: the library snaps the pixel-to-pixel translation to whole pixels within 1e-3 source pixels (snap_affine),
+                # so an overlap thinner than that is a sliver by its own definition; require twice that
+                b = inter.bounds
+                thin = min(b[2] - b[0], b[3] - b[1]) / src_px_len
+                if thin < 2e-3:
+                    continue
             if a > thr:
                 nedge += 1
                 if sidx not in [tuple(s) for s in deps.get((r, c), [])]:
